@@ -1,6 +1,7 @@
 """C08 — split conserves duration, sound and events.  Deciding oracle: post-contract on the real
 RelativeSequence.split."""
 from vmon import gen
+from vmon import oracle as orc
 from vmon.checks.common import obs, fail, random_prefix, apply_prefix
 
 PROP = "C08"
@@ -10,11 +11,12 @@ RULE = ("seeded well-formed sequences (1-3 channels sharing pitches, notes spann
         "signature events exactly on boundaries and on the final tick, leading/trailing rests) x capacity lists (random, "
         "equal to event ticks, summing exactly to / beyond the duration); the contract on the real split decides count / "
         "capacities / duration sum / closed at boundary / sound / re-strike velocity / events / source unchanged. "
-        "Stratum A avoids the listed known-finding trigger (non-note event on the final tick) and must be entirely clean; "
-        "stratum B includes it. Non-trivial: >= 2 pieces and (a note cut at a boundary or an event on a boundary).")
+        "Stratum A avoids the listed known-finding trigger (a key or time signature on the final tick; control and program "
+        "changes there are part of it) and must be entirely clean; stratum B includes it. Non-trivial: >= 2 pieces and (a note cut at a boundary or an event on a boundary).")
 PLAN = {"quick": {"cases": 6000, "jobs": 4, "timeout": 600},
         "thorough": {"cases": 2000000, "jobs": 16, "timeout": 3000, "budget_s": 360}}
-FLOORS = {"quick": {"split.sound.armed": 4500, "c08.cut_note": 1500, "c08.event_on_boundary": 800, "c08.same_pitch_two_channels": 300},
+FLOORS = {"quick": {"split.sound.armed": 4500, "c08.cut_note": 1500, "c08.event_on_boundary": 800, "c08.same_pitch_two_channels": 300,
+                    "c08.control_event_on_final_tick_boundary": 150},
           "thorough": {"split.sound.armed": 100000, "c08.cut_note": 30000}}
 
 
@@ -51,10 +53,11 @@ def make_case(rng, i, tier):
     ticks = None
     if rng.random() < 0.6:
         ticks = [b for b in bounds if b <= total] + [0, total] + [rng.randrange(0, max(1, total + 1)) for _ in range(3)]
-    extra = gen.rand_extras(rng, rng.randint(0, 4), max(1, total + 1), ticks=ticks, kinds=("cc", "cc", "pc", "ks"), chans=chans)
+    extra = gen.rand_extras(rng, rng.randint(0, 4), max(1, total + 1), ticks=ticks, kinds=("cc", "cc", "pc", "ks", "ts"), chans=chans)
     extra = [e for e in extra if e[1] <= total]
     if stratum == "A":
-        extra = [e for e in extra if e[1] < total]
+        # no SIGNATURE on the final tick (the remaining known finding); control and program changes there must survive
+        extra = [e for e in extra if e[1] < total or e[0] in ("cc", "pc")]
     spec = {"notes": notes, "extra": extra, "start": rng.choice(["abs", "rel", "both"])}
     if pad:
         spec["pad"] = pad
@@ -64,7 +67,8 @@ def make_case(rng, i, tier):
 
 
 def classify(f, case):
-    """known finding: zero-time non-note events on the final tick are lost when that tick is a split boundary"""
+    """known finding: key / time signatures on the final tick are lost when that tick is a split boundary (control and
+    program changes there are kept since fix 92dca25)"""
     if f.get("claim") != "split.events" or case.get("stratum") == "A":
         return None
     w = f.get("w") or {}
@@ -74,8 +78,9 @@ def classify(f, case):
         return None
     if not w.get("final_tick_is_boundary"):
         return None
-    if all(m[0] == w.get("duration") for m in w["missing"]) and w.get("n_missing") == w.get("n_missing_on_final_tick"):
-        return "final_tick_boundary_event_dropped"
+    if all(m[0] == w.get("duration") and m[1] in (orc.TS, orc.KS) for m in w["missing"]) \
+            and w.get("n_missing") == w.get("n_missing_on_final_tick") == w.get("n_missing_signatures_on_final_tick"):
+        return "final_tick_boundary_signature_dropped"
     return None
 
 
@@ -106,6 +111,8 @@ def run(case, ctx):
         LOG.n("c08.event_on_boundary")
     if shared:
         LOG.n("c08.same_pitch_two_channels")
+    if before["dur"] in bounds and any(e[0] == before["dur"] and e[1] not in (orc.TS, orc.KS) for e in before["non"]):
+        LOG.n("c08.control_event_on_final_tick_boundary")   # the mechanism repaired in 92dca25
     # independence probe (feeds C16; a shared object is an explanation, not by itself a violation here)
     return {"nontrivial": len(pieces) >= 2 and (cut or evb), "fails": fails,
             "shape": (case["stratum"], case["mode"], min(len(pieces), 4), cut, evb, shared),
